@@ -95,7 +95,7 @@ def run(ctx):
         if str(ast2) != s1:
             violations.append({'input': inp, 'second': str(ast2), 'what': 'printing the re-parsed AST gives a different text', 'signature': 'print-not-stable'})
         key = (entry, s1)
-        cw = canon_str(w)
+        cw = canon_str(_nometa(w))      # equality of ASTs ignores metadata (and str does not print it)
         if key in printed and printed[key] != cw:
             violations.append({'input': inp, 'what': 'two different ASTs print identically', 'signature': 'print-not-injective'})
         printed[key] = cw
